@@ -105,7 +105,10 @@ fn unlink_empty_blocks(context: &mut Context, function: &Function) -> Result<boo
     Ok(modified)
 }
 
-fn remove_dead_blocks(context: &mut Context, function: &Function) -> Result<bool, IrError> {
+pub(crate) fn remove_dead_blocks(
+    context: &mut Context,
+    function: &Function,
+) -> Result<bool, IrError> {
     let mut worklist = Vec::<Block>::new();
     let mut reachable = std::collections::HashSet::<Block>::new();
 
